@@ -17,12 +17,14 @@ import (
 //
 //	b == a                        →  a == b            (likewise != < <= > >=; one operand cannot panic or have effects)
 //	b || a, b && a                →  a || b, a && b    (both operands total and effect-free)
+//	b + a, b * a, b & a, b | a    →  a + b, …          (numbers — for `+` with syntactic evidence; one operand total and effect-free)
 //	if !c {B} else {A}            →  if c {A} else {B}
 //	if !c {return X}; return Y    →  if c {return Y}; return X
 //	if !c {return R}; S; return R →  if c {S}; return R      (S up to the end of the block; also `if !c {return}; S`
 //	                                                          up to the end of a function without results)
 //	if a {B}; if b {B}            →  if a || b {B}      (B leaves: return, panic, continue, break)
 //	if a { if b {S} }             →  if a && b {S}
+//	x = max(x, y)                 →  if y > x { x = y }   (min likewise; an operand of declared integer type)
 //	switch { case c1: … }         →  if c1 {…} else if …          (no tagless switch on the pinned tree)
 //	switch x { case A: … }        →  if x == A {…} else if …      (no `switch x` on the pinned tree; x effect-free)
 //	if x == A {…} else if x == B  →  switch x { case A: … }       (`switch x` on the pinned tree, none here)
@@ -63,6 +65,51 @@ func atomPure(e ast.Expr) bool {
 }
 
 var swappedCmp = map[token.Token]token.Token{token.EQL: token.EQL, token.NEQ: token.NEQ, token.LSS: token.GTR, token.GTR: token.LSS, token.LEQ: token.GEQ, token.GEQ: token.LEQ}
+
+// commutative arithmetic operators (`+` only for numbers: see numericSum)
+var commutative = map[token.Token]bool{token.ADD: true, token.MUL: true, token.AND: true, token.OR: true, token.XOR: true}
+
+// numbersOnly: operators that strings do not have — an operand of one of them is a number
+var numbersOnly = map[token.Token]bool{token.SUB: true, token.MUL: true, token.QUO: true, token.REM: true, token.SHL: true, token.SHR: true,
+	token.AND: true, token.OR: true, token.XOR: true, token.AND_NOT: true}
+
+func stripParens(e ast.Expr) ast.Expr {
+	for {
+		p, ok := e.(*ast.ParenExpr)
+		if !ok {
+			return e
+		}
+		e = p.X
+	}
+}
+
+// numericSum: is there syntactic evidence that the `+` expression b adds numbers (not strings)?  An operand is a
+// numeric literal, a len/cap call or integer conversion, or a variable/field declared with an integer type.
+func numericSum(f *ast.File, b *ast.BinaryExpr) bool {
+	for _, o := range []ast.Expr{stripParens(b.X), stripParens(b.Y)} {
+		switch t := o.(type) {
+		case *ast.BasicLit:
+			if t.Kind == token.INT || t.Kind == token.FLOAT {
+				return true
+			}
+		case *ast.CallExpr:
+			if id, ok := t.Fun.(*ast.Ident); ok && id.Obj == nil {
+				switch id.Name {
+				case "len", "cap", "int", "int64", "int32", "uint", "uint64", "uint32", "uint8", "byte":
+					return true
+				}
+			}
+		case *ast.BinaryExpr:
+			if numbersOnly[t.Op] {
+				return true
+			}
+		}
+		if intTyped(f, o) {
+			return true
+		}
+	}
+	return false
+}
 
 // condTexts lists the condition texts of fn (see above).
 func condTexts(fset *token.FileSet, fn *ast.FuncDecl) []string {
@@ -108,7 +155,7 @@ func condTexts(fset *token.FileSet, fn *ast.FuncDecl) []string {
 				}
 			}
 		case *ast.BinaryExpr:
-			if _, cmp := swappedCmp[t.Op]; cmp || t.Op == token.LAND || t.Op == token.LOR {
+			if _, cmp := swappedCmp[t.Op]; cmp || t.Op == token.LAND || t.Op == token.LOR || commutative[t.Op] {
 				add(t)
 			}
 		}
@@ -163,6 +210,7 @@ func andOperand(e ast.Expr) ast.Expr {
 }
 
 type condNorm struct {
+	file   *ast.File
 	fset   *token.FileSet
 	fn     *ast.FuncDecl
 	pinned map[string]bool
@@ -203,6 +251,32 @@ func (c *condNorm) orient() {
 				return alt
 			}
 		}
+		// a + b, a * b, a & b, a | b, a ^ b on numbers (both operands are evaluated; one cannot panic or have effects)
+		swapArith := func(in *ast.BinaryExpr, numeric bool) {
+			if !commutative[in.Op] || (!atomPure(in.X) && !atomPure(in.Y)) {
+				return
+			}
+			if in.Op == token.ADD && !numeric && !numericSum(c.file, in) {
+				return
+			}
+			alt := &ast.BinaryExpr{X: in.Y, OpPos: in.OpPos, Op: in.Op, Y: in.X}
+			// an operand must not need parentheses in its new place that it does not have (`a - b + c`)
+			if needsParens(alt, "X", alt.X) || needsParens(alt, "Y", alt.Y) {
+				return
+			}
+			if c.wants(in, alt) {
+				in.X, in.Y = in.Y, in.X
+			}
+		}
+		swapArith(b, false)
+		if numbersOnly[b.Op] {
+			// the operands of a numbers-only operator are numbers: a `+` directly below adds numbers
+			for _, side := range []ast.Expr{b.X, b.Y} {
+				if in, ok := stripParens(side).(*ast.BinaryExpr); ok && in.Op == token.ADD {
+					swapArith(in, true)
+				}
+			}
+		}
 		return nil
 	})
 }
@@ -219,6 +293,113 @@ func sameResults(c *condNorm, a, b *ast.ReturnStmt) bool {
 	return true
 }
 
+// maxAssign: `x = max(x, y)` → `if y > x { x = y }`, `x = min(x, y)` → `if y < x { x = y }` (either operand
+// order), for effect-free x, y of which one is declared with an integer type in this file (for floating-point
+// operands `max` propagates NaN, the `if` does not), when that test is a pinned condition.
+func (c *condNorm) maxAssign(as *ast.AssignStmt) ast.Stmt {
+	if as.Tok != token.ASSIGN || len(as.Lhs) != 1 || len(as.Rhs) != 1 {
+		return nil
+	}
+	call, ok := as.Rhs[0].(*ast.CallExpr)
+	if !ok || len(call.Args) != 2 {
+		return nil
+	}
+	f, ok := call.Fun.(*ast.Ident)
+	if !ok || f.Obj != nil || (f.Name != "max" && f.Name != "min") {
+		return nil
+	}
+	x := as.Lhs[0]
+	var y ast.Expr
+	switch c.txt(x) {
+	case c.txt(call.Args[0]):
+		y = call.Args[1]
+	case c.txt(call.Args[1]):
+		y = call.Args[0]
+	default:
+		return nil
+	}
+	if cloneExpr(x, token.NoPos, nil) == nil || cloneExpr(y, token.NoPos, nil) == nil {
+		return nil
+	}
+	if !intTyped(c.file, x) && !intTyped(c.file, y) {
+		return nil
+	}
+	op, rev := token.GTR, token.LSS
+	if f.Name == "min" {
+		op, rev = token.LSS, token.GTR
+	}
+	cond := &ast.BinaryExpr{X: y, OpPos: as.Pos(), Op: op, Y: x}
+	if !c.pinned[c.txt(cond)] && !c.pinned[c.txt(&ast.BinaryExpr{X: x, Op: rev, Y: y})] {
+		return nil
+	}
+	set := &ast.AssignStmt{Lhs: []ast.Expr{x}, TokPos: as.TokPos, Tok: token.ASSIGN, Rhs: []ast.Expr{cloneExpr(y, as.TokPos, nil)}}
+	return &ast.IfStmt{If: as.Pos(), Cond: cond, Body: &ast.BlockStmt{Lbrace: as.Pos(), List: []ast.Stmt{set}, Rbrace: as.End()}}
+}
+
+// intTyped: e is a variable, or a field of a variable whose struct type is declared in this file, declared with a
+// built-in integer type.
+func intTyped(f *ast.File, e ast.Expr) bool {
+	isInt := func(t ast.Expr) bool {
+		id, ok := t.(*ast.Ident)
+		if !ok || id.Obj != nil {
+			return false
+		}
+		switch id.Name {
+		case "int", "int8", "int16", "int32", "int64", "uint", "uint8", "uint16", "uint32", "uint64", "uintptr", "byte":
+			return true
+		}
+		return false
+	}
+	declType := func(id *ast.Ident) ast.Expr {
+		if id.Obj == nil {
+			return nil
+		}
+		if fld, ok := id.Obj.Decl.(*ast.Field); ok {
+			return fld.Type
+		}
+		return nil
+	}
+	switch t := e.(type) {
+	case *ast.ParenExpr:
+		return intTyped(f, t.X)
+	case *ast.Ident:
+		if ty := declType(t); ty != nil {
+			return isInt(ty)
+		}
+	case *ast.SelectorExpr:
+		v, ok := t.X.(*ast.Ident)
+		if !ok || f == nil {
+			return false
+		}
+		ty := declType(v)
+		if ty == nil {
+			return false
+		}
+		name := recvName(ty)
+		for _, d := range f.Decls {
+			gd, ok := d.(*ast.GenDecl)
+			if !ok || gd.Tok != token.TYPE {
+				continue
+			}
+			for _, sp := range gd.Specs {
+				ts := sp.(*ast.TypeSpec)
+				st, ok := ts.Type.(*ast.StructType)
+				if !ok || ts.Name.Name != name {
+					continue
+				}
+				for _, fl := range st.Fields.List {
+					for _, nm := range fl.Names {
+						if nm.Name == t.Sel.Name {
+							return isInt(fl.Type)
+						}
+					}
+				}
+			}
+		}
+	}
+	return false
+}
+
 // branches applies the statement-level rules to every statement list of the function, to a fixed point.
 func (c *condNorm) branches() {
 	for round := 0; round < 8; round++ {
@@ -226,6 +407,13 @@ func (c *condNorm) branches() {
 		for _, list := range stmtLists(c.fn.Body) {
 			isFuncBody := list == &c.fn.Body.List
 			for k := 0; k < len(*list); k++ {
+				if as, ok := (*list)[k].(*ast.AssignStmt); ok {
+					if r := c.maxAssign(as); r != nil {
+						(*list)[k] = r
+						changed = true
+					}
+					continue
+				}
 				st, ok := (*list)[k].(*ast.IfStmt)
 				if !ok || st.Init != nil {
 					continue
@@ -505,8 +693,8 @@ func (c *condNorm) switches() {
 }
 
 // normalizeConds runs the rules above on fn.
-func normalizeConds(fset *token.FileSet, fn *ast.FuncDecl, conds, tags []string) {
-	c := &condNorm{fset: fset, fn: fn, pinned: map[string]bool{}, tags: map[string]bool{}}
+func normalizeConds(f *ast.File, fset *token.FileSet, fn *ast.FuncDecl, conds, tags []string) {
+	c := &condNorm{file: f, fset: fset, fn: fn, pinned: map[string]bool{}, tags: map[string]bool{}}
 	for _, s := range conds {
 		c.pinned[s] = true
 	}
@@ -517,4 +705,182 @@ func normalizeConds(fset *token.FileSet, fn *ast.FuncDecl, conds, tags []string)
 	c.orient()
 	c.branches()
 	c.orient()
+}
+
+// ---- rewrites that a module applies to ONE function whose pinned form it knows (not table-directed)
+
+// unguardBool reads, in the top-level statement list of fn,
+//
+//	if !v { return false }; S…; return true      as      if v { S… }; return v
+//
+// for a boolean variable v that S does not assign (after the guard v is true, so `return true` returns v).
+// Use it where the pinned function has the second form.
+func unguardBool(fn *ast.FuncDecl) {
+	list := &fn.Body.List
+	isLit := func(e ast.Expr, v string) bool {
+		id, ok := e.(*ast.Ident)
+		return ok && id.Name == v && id.Obj == nil
+	}
+	for k := 0; k+2 < len(*list); k++ {
+		st, ok := (*list)[k].(*ast.IfStmt)
+		if !ok || st.Init != nil || st.Else != nil || len(st.Body.List) != 1 {
+			continue
+		}
+		not, ok := st.Cond.(*ast.UnaryExpr)
+		if !ok || not.Op != token.NOT {
+			continue
+		}
+		v, ok := not.X.(*ast.Ident)
+		g, isRet := st.Body.List[0].(*ast.ReturnStmt)
+		last, lastIsRet := (*list)[len(*list)-1].(*ast.ReturnStmt)
+		if !ok || v.Obj == nil || !isRet || !lastIsRet || len(g.Results) != 1 || len(last.Results) != 1 ||
+			!isLit(g.Results[0], "false") || !isLit(last.Results[0], "true") {
+			continue
+		}
+		s := append([]ast.Stmt(nil), (*list)[k+1:len(*list)-1]...)
+		assigned := false
+		for _, x := range s {
+			assigned = assigned || assignsObj(x, v.Obj)
+		}
+		if assigned {
+			continue
+		}
+		st.Cond, st.Body = v, &ast.BlockStmt{Lbrace: st.Body.Lbrace, List: s, Rbrace: st.Body.Rbrace}
+		last.Results[0] = &ast.Ident{NamePos: last.Results[0].Pos(), Name: v.Name, Obj: v.Obj}
+		*list = append((*list)[:k+1:k+1], last)
+		return
+	}
+}
+
+// elseToContinue reads a loop body that ENDS in `if c { A } else { B }` as `if c { A; continue }; B`: at the end
+// of a loop body falling out of the `if` and `continue` are the same.  (B's declarations must not clash with names
+// of the loop body.)  Use it where the pinned loop has the second form.
+func elseToContinue(fn *ast.FuncDecl) {
+	ast.Inspect(fn.Body, func(n ast.Node) bool {
+		var body *ast.BlockStmt
+		switch t := n.(type) {
+		case *ast.ForStmt:
+			body = t.Body
+		case *ast.RangeStmt:
+			body = t.Body
+		}
+		if body == nil || len(body.List) == 0 {
+			return true
+		}
+		st, ok := body.List[len(body.List)-1].(*ast.IfStmt)
+		if !ok || st.Init != nil {
+			return true
+		}
+		els, ok := st.Else.(*ast.BlockStmt)
+		if !ok || terminates(st.Body) {
+			return true
+		}
+		outer := map[string]bool{}
+		for _, s := range body.List[:len(body.List)-1] {
+			for nme := range identNames(s) {
+				outer[nme] = true
+			}
+		}
+		for nme := range identNames(st.Cond) {
+			outer[nme] = true
+		}
+		for _, s := range els.List {
+			switch d := s.(type) {
+			case *ast.AssignStmt:
+				if d.Tok == token.DEFINE {
+					for _, l := range d.Lhs {
+						if id, ok := l.(*ast.Ident); ok && outer[id.Name] {
+							return true
+						}
+					}
+				}
+			case *ast.DeclStmt:
+				return true
+			}
+		}
+		st.Body.List = append(st.Body.List, &ast.BranchStmt{TokPos: st.Body.Rbrace, Tok: token.CONTINUE})
+		st.Else = nil
+		body.List = append(body.List, els.List...)
+		return true
+	})
+}
+
+// assignsObjExcept: is obj assigned anywhere in n other than by its defining statement def?
+func assignsObjExcept(n ast.Node, obj *ast.Object, def ast.Stmt) bool {
+	hit := false
+	ast.Inspect(n, func(m ast.Node) bool {
+		if st, ok := m.(ast.Stmt); ok && st != def {
+			switch st.(type) {
+			case *ast.AssignStmt, *ast.IncDecStmt, *ast.RangeStmt:
+				// look at this statement alone (its sub-statements are visited on their own)
+				switch t := st.(type) {
+				case *ast.AssignStmt:
+					for _, l := range t.Lhs {
+						if id, ok := l.(*ast.Ident); ok && id.Obj == obj {
+							hit = true
+						}
+					}
+				case *ast.IncDecStmt:
+					if id, ok := t.X.(*ast.Ident); ok && id.Obj == obj {
+						hit = true
+					}
+				case *ast.RangeStmt:
+					for _, kv := range []ast.Expr{t.Key, t.Value} {
+						if id, ok := kv.(*ast.Ident); ok && id.Obj == obj {
+							hit = true
+						}
+					}
+				}
+			}
+		}
+		if u, ok := m.(*ast.UnaryExpr); ok && u.Op == token.AND {
+			if id, ok := u.X.(*ast.Ident); ok && id.Obj == obj {
+				hit = true
+			}
+		}
+		return !hit
+	})
+	return hit
+}
+
+// orderPair puts list[k], list[k+1] in the order in which the statement with text `first` comes first, when the
+// two are INDEPENDENT simple updates: `v++`, `v--` or an assignment of an effect-free, total expression, to
+// different plain variables / field paths, neither reading the other's target.  Swapping such a pair preserves
+// behaviour.
+func (x *X) orderPair(list []ast.Stmt, k int, first string) {
+	if k+1 >= len(list) || x.Src(list[k+1]) != first || x.Src(list[k]) == first {
+		return
+	}
+	simple := func(st ast.Stmt) (paths []string, ok bool) {
+		switch t := st.(type) {
+		case *ast.IncDecStmt:
+			if _, isPath := pathOf(t.X); !isPath {
+				return nil, false
+			}
+			return pathsIn(t.X), true
+		case *ast.AssignStmt:
+			for _, l := range t.Lhs {
+				if _, isPath := pathOf(l); !isPath {
+					return nil, false
+				}
+				paths = append(paths, pathsIn(l)...)
+			}
+			for _, r := range t.Rhs {
+				if !atomPure(r) {
+					if _, isPath := pathOf(r); !isPath {
+						return nil, false
+					}
+				}
+				paths = append(paths, pathsIn(r)...)
+			}
+			return paths, true
+		}
+		return nil, false
+	}
+	pa, oka := simple(list[k])
+	pb, okb := simple(list[k+1])
+	if !oka || !okb || mayModify(list[k], pb, nil) || mayModify(list[k+1], pa, nil) {
+		return
+	}
+	list[k], list[k+1] = list[k+1], list[k]
 }
